@@ -142,6 +142,7 @@ type Exec struct {
 	havocs    map[string]bool
 	curPos    token.Pos
 	guardLabel []string
+	havocVals map[string]*Term
 	inInitOf  map[*ssa.Package]bool
 	noReplay  bool
 	recTag    string
@@ -322,6 +323,20 @@ func (ex *Exec) callFunction(fn *ssa.Function, args []Value, bind []Value, site 
 	}
 	if ex.funcs != nil {
 		ex.funcs[fn.String()] = true
+	}
+	if !ex.initMode && len(args) > 0 && len(bind) == 0 {
+		sym := false
+		for _, a := range args {
+			if t, ok := a.(*Term); ok && !t.IsConst() {
+				sym = true
+				break
+			}
+		}
+		if sym {
+			if pi := ex.P.pure(fn); pi.ok {
+				return ex.callMerged(fn, pi, args)
+			}
+		}
 	}
 	ex.depth++
 	if ex.depth > 400 {
